@@ -442,7 +442,7 @@ def run_calls(programs, points, order_seed, backend_blocks=None):
     ths = [threading.Thread(target=worker, args=(i,), daemon=True) for i in range(n)]
     for t in ths:
         t.start()
-    deadline = time.time() + 90.0            # (a case takes a few seconds; threads that wait for each other never finish)
+    deadline = time.time() + 150.0           # (a case takes a few seconds; threads that wait for each other never finish)
     for t in ths:
         t.join(max(0.1, deadline - time.time()))
     stuck = any(t.is_alive() for t in ths)
